@@ -132,10 +132,6 @@ def hosts_batch(ck, rnd, n):
                       "theorems_no_longer_tied": HOST_THEOREMS, "replay_op": "hosts"})
 
 
-def c07_stats(ck, hists):
-    pass
-
-
 def run(ck):
     vlib.import_repo()
     ck.build([MODEL])
@@ -178,6 +174,7 @@ def run(ck):
         "duplicate (topic, partition) payloads in one call are outside C07_order/C07_accounting (the response dictionary keeps one answer per key); they are exercised by the correspondence only",
         "send_fetch_request is not driven (same _send_broker_aware_request path as the APIs that are); the network side (request parser / response encoder) was written from the Kafka protocol guide, not from afkak's codec",
         "_normalize_hosts: host names are compared as code-point lists (CPython str ordering), str.strip() for ASCII white space; non-numeric ports (ValueError) are outside the model",
+        "close() called while a lookup of the running operation is pending: client.py:383-389 fail the pending request synchronously, the operation's continuation runs inside close() and reads the cache BEFORE reset_all_metadata() (391); the model does the same (ClientMeta.close_early during the operation, close_finish after it)",
         "extraction: ExtrOcamlBasic only; Z stays a Coq datatype; sample of the case lines re-evaluated in Coq by vm_compute",
     ]
     ck.cov["trusted_base"] += ["correspondence harness harness/props/C07.py + client_gen.py + client_lib.py + harness/simnet.py + harness/vlib.py",
